@@ -10,8 +10,12 @@ from ..session import Outcome
 from . import PropBase, steps_with_ids
 
 FAULTS = ("clear", "shrink", "twin", "clear_typing", "deep", "reject")
-STRUCT_OPS = ("drop_field", "rename_field", "retype", "remove_elem", "add_elem", "dup_elem", "reorder", "wrap", "unwrap", "graft", "add_key")
+STRUCT_OPS = ("drop_field", "rename_field", "retype", "remove_elem", "add_elem", "dup_elem", "reorder", "wrap", "unwrap", "graft", "add_key", "attr_name")
 BYTE_OPS = ("truncate", "dup_span", "flip_byte")
+
+
+ATTR_NAMES = ["mro", "__module__", "__members__", "__name__", "__qualname__", "__class__", "__doc__", "_value2member_map_", "_member_names_",
+              "name", "value", "real", "imag", "numerator", "to_bytes", "bit_length", "__init__", "__dict__", "upper", "M0", "M1"]
 
 
 def _nodes(w, path=()):
@@ -50,6 +54,8 @@ def corrupt(rng, wire, graft_pool):
         nodes = list(_nodes(w))
         path, node = rng.choice(nodes)
         ops = ["retype", "wrap", "graft"]
+        if not isinstance(node, dict):
+            ops += ["attr_name"]  # a scalar replaced by text that names an attribute every class has (never a value of it)
         if isinstance(node, dict) and "$dict" in node:
             ops += ["add_key", "add_key"]
             if node["$dict"]:
@@ -81,6 +87,9 @@ def corrupt(rng, wire, graft_pool):
             node["$list"].insert(i, copy.deepcopy(node["$list"][i]))
         elif op == "retype":
             w = _set(w, path, hist.junk(rng))
+        elif op == "attr_name":
+            name = rng.choice(ATTR_NAMES)
+            w = _set(w, path, name if rng.random() < 0.7 else {"$b": name.encode().hex()})
         elif op == "wrap":
             w = _set(w, path, {"$list": [copy.deepcopy(node)]} if rng.random() < 0.6 else {"$dict": [["value", copy.deepcopy(node)]]})
         elif op == "unwrap":
